@@ -973,3 +973,83 @@ Proof.
     assert (Ety : ty = l_type l) by (apply get_depth_type_level; auto; lia).
     rewrite Ety in *. apply (tk_single d T l Hl); [lia|exact Hty].
 Qed.
+
+(* ================================================================== *)
+(* hwloc_get_closest_objs                                              *)
+
+(* src and its ancestors, nearest first *)
+Fixpoint up_chain (d : dump) (fuel : nat) (o : dobj) : list dobj :=
+  o :: match fuel with
+       | O => []
+       | S f => match deref d (o_parent o) with Some p => up_chain d f p | None => [] end
+       end.
+
+(* objects of the level inside the ancestor q but not inside the previous one p, in logical order *)
+Definition ring (lv : list dobj) (p q : dobj) : list dobj :=
+  filter (fun o => bs_subset (dcs o) (dcs q) && negb (bs_subset (dcs o) (dcs p))) lv.
+
+Definition rings (lv : list dobj) (chain : list dobj) : list dobj :=
+  flat_map (fun pq => ring lv (fst pq) (snd pq)) (combine chain (tl chain)).
+
+Lemma up_chain_cons d fuel o : up_chain d fuel o = o :: tl (up_chain d fuel o).
+Proof. destruct fuel; reflexivity. Qed.
+
+Lemma ring_same_cpuset lv p q : bs_eqb (dcs p) (dcs q) = true -> ring lv p q = [].
+Proof.
+  intros E. apply bs_eqb_spec in E. unfold ring. rewrite E.
+  induction lv as [|o tl IH]; [reflexivity|]. cbn [filter]. now rewrite andb_negb_r.
+Qed.
+
+Lemma rings_cons lv p q rest : rings lv (p :: q :: rest) = ring lv p q ++ rings lv (q :: rest).
+Proof. reflexivity. Qed.
+
+Lemma closest_rec_rings d lv : forall fuel p max,
+  closest_rec d fuel lv p max = firstn max (rings lv (up_chain d fuel p)).
+Proof.
+  induction fuel as [|f IH]; intros p max.
+  - cbn [closest_rec up_chain]. unfold rings. cbn. now rewrite firstn_nil.
+  - cbn [closest_rec]. destruct max as [|mx]; [reflexivity|].
+    cbn [up_chain]. destruct (deref d (o_parent p)) as [np|] eqn:E.
+    2:{ unfold rings. cbn. reflexivity. }
+    rewrite (up_chain_cons d f np), rings_cons, <- (up_chain_cons d f np).
+    destruct (bs_eqb (dcs p) (dcs np)) eqn:Eq.
+    + rewrite (ring_same_cpuset lv p np Eq). cbn [app]. apply IH.
+    + fold (ring lv p np). set (found := ring lv p np). rewrite IH, firstn_app.
+      pose proof (firstn_length (S mx) found) as FL. f_equal.
+      destruct (Nat.le_gt_cases (S mx) (List.length found)) as [L|L].
+      * replace (S mx - List.length (firstn (S mx) found))%nat with 0%nat by lia.
+        replace (S mx - List.length found)%nat with 0%nat by lia. reflexivity.
+      * assert (E' : firstn (S mx) found = found) by (apply firstn_all2; lia). rewrite E'. reflexivity.
+Qed.
+
+(* with enough fuel the chain ends at the root *)
+Lemma up_chain_reaches_root d : parents_ok d -> forall fuel o, In o (t_objs d) -> (H d o <= fuel)%nat ->
+  deref d (o_parent (last (up_chain d fuel o) o)) = None.
+Proof.
+  intros P. induction fuel as [|f IH]; intros o Ho Hf.
+  - cbn. destruct (deref d (o_parent o)) as [p|] eqn:E; [|reflexivity].
+    rewrite (H_step d P o p Ho E) in Hf. lia.
+  - cbn [up_chain]. destruct (deref d (o_parent o)) as [p|] eqn:E; [|cbn; exact E].
+    destruct (po_lt d P o p Ho E) as [Hp _]. rewrite (H_step d P o p Ho E) in Hf.
+    specialize (IH p Hp ltac:(lia)).
+    assert (G : forall (l : list dobj) a b, l <> [] -> last l a = last l b).
+    { induction l as [|z zs IHl]; intros a b Hne; [contradiction|]. destruct zs; [reflexivity|].
+      change (last (z :: d0 :: zs) a) with (last (d0 :: zs) a). change (last (z :: d0 :: zs) b) with (last (d0 :: zs) b).
+      apply IHl. discriminate. }
+    rewrite (up_chain_cons d f p) in *.
+    change (last (o :: p :: tl (up_chain d f p)) o) with (last (p :: tl (up_chain d f p)) o).
+    rewrite (G _ o p) by discriminate. exact IH.
+Qed.
+
+(* the answer: ring after ring going up from src (objects inside ancestor j+1 and not inside
+   ancestor j), each ring in logical order, cut at max; the chain goes up to the root *)
+Lemma closest_sorted_by_ancestor_l d src max :
+  o_cs src <> None ->
+  let chain := up_chain d (S (List.length (t_objs d))) src in
+  get_closest_objs d src max = firstn (N.to_nat max) (rings (level_objs d (o_depth src)) chain) /\
+  (parents_ok d -> In src (t_objs d) -> deref d (o_parent (last chain src)) = None).
+Proof.
+  intros Hcs chain. split.
+  - unfold get_closest_objs. destruct (o_cs src); [|contradiction]. apply closest_rec_rings.
+  - intros P Hs. apply up_chain_reaches_root; auto. pose proof (H_lt_fuel d P src Hs). unfold hfuel in *. lia.
+Qed.
